@@ -155,6 +155,16 @@ pub fn check(v: &View, vd: &mut Verdict) {
                 );
                 continue;
             };
+            // evidence instead of inference: the harness identifies a replaced entry by calling it *after*
+            // register() has returned - an entry that still answers was alive when register() decided
+            if let (RegOp::Register, RegRes::Registered { me, replaced: Some(x) }) = (rop, res) {
+                if *x != usize::MAX {
+                    vd.fail(
+                        "C08/register_replaced_live_instance",
+                        format!("service kind {kind}: register of instance {me} (begun at {}) succeeded and handed back instance {x} as the replaced entry, which still answered a call afterwards", o.begin),
+                    );
+                }
+            }
             let task = task_of_op(o);
             let created = created_by
                 .iter()
